@@ -191,3 +191,24 @@ func rewriteChans(fset *token.FileSet, f *ast.File, lenChans map[string]bool) bo
 	rewriteTree(f, fe, fs)
 	return usesChan
 }
+
+// rewriteRangeKeys turns `for k := range E` (key only, E listed) into
+// `for _, k := range vorder.SortedKeys(E)`.
+func rewriteRangeKeys(fset *token.FileSet, f *ast.File, exprs map[string]bool) bool {
+	changed := false
+	ast.Inspect(f, func(n ast.Node) bool {
+		rs, ok := n.(*ast.RangeStmt)
+		if !ok || rs.Key == nil || rs.Value != nil {
+			return true
+		}
+		if !exprs[exprString(fset, rs.X)] {
+			return true
+		}
+		rs.Value = rs.Key
+		rs.Key = ast.NewIdent("_")
+		rs.X = call(sel("vorder", "SortedKeys"), rs.X)
+		changed = true
+		return true
+	})
+	return changed
+}
